@@ -171,7 +171,8 @@ def run(ctx):
         pcfg = common.load_grammar(d)
         full = [l for u in ss.units_of(pcfg) for l in u[2]]
         for kind, kw in (('pipe-open', {}), ('pipe-eof', {}), ('devnull', {}), ('closed', {}),
-                         ('pipe-input-eof', {'input_bytes': b'\nh\nstatus\n'}), ('pipe-input', {'input_bytes': b'\n\nh\n'})):
+                         ('pipe-input-eof', {'input_bytes': b'\nh\nstatus\n'}), ('pipe-input', {'input_bytes': b'\n\nh\n'}),
+                         ('tty', {}), ('tty-input', {'input_bytes': b'\nh\n\n'})):
             out, err, rc = common.run_cli('pcfg_guesser.py', ['-r', name, '-s', f"c12s{i}"], stdin=kind, **kw)
             cli_runs += 1
             got = out.decode('utf-8', errors='replace').split('\n')[:-1]
@@ -204,7 +205,7 @@ def run(ctx):
                     'finishing before the first guess) and stdin scripts (silent pipe, EOF, error, status/help chatter, q, q whose status '
                     'print fails); output / final state / saved position compared with the Lean state machine; oracle: output is a prefix of '
                     'the uninterrupted stream, complete unless q was typed, and after a quit out + saved remainder = full; plus pcfg_guesser.py '
-                    'under six real stdin conditions. non-trivial = q honoured strictly inside the stream',
+                    'under eight real stdin conditions (incl. a pseudo-terminal, silent and with typed status requests). non-trivial = q honoured strictly inside the stream',
             'samples': samples, 'disagreements': disagreements, 'violations': viol, 'distribution': dist,
             'extra': {'cli_runs': cli_runs, 'protocol_ops': len(ops)}}
 
